@@ -19,7 +19,15 @@ pub fn run_history(prefix: &[Op], hist: &[Op], cfg: &Config, st: &mut Stats) -> 
     let mut stale_seen = false;
     let all: Vec<Op> = prefix.iter().chain(hist.iter()).copied().collect();
     let mut saw_delete_all = false;
+    if cfg.eager_merges && prefix.is_empty() {
+        h.enable_eager_merges();
+    }
     for (i, op) in all.iter().enumerate() {
+        // eager phases: the prefix runs without a merge policy, then merge-everything is switched on (so that
+        // several committed segments exist when the policy gets its first chance)
+        if cfg.eager_merges && i == prefix.len() && !prefix.is_empty() {
+            h.enable_eager_merges();
+        }
         st.count("transitions");
         if *op == Op::DeleteAll {
             saw_delete_all = true;
